@@ -57,6 +57,33 @@ impl<SP: StorageProvider, PS> Transaction<SP, PS> {
     }
 }
 
+/// Verification shim (C06/C09, only with `--cfg aranya_core_verif`): a read-only view of the
+/// transaction's tip bookkeeping. Nothing here is compiled in a normal build.
+#[cfg(aranya_core_verif)]
+impl<SP: StorageProvider, PS> Transaction<SP, PS> {
+    /// `(ids of the written tips incl. the ones covered by the in-flight perspective, phead,
+    /// whether a perspective is in flight, whether the head-set stamp has been captured)`.
+    pub fn verif_tips(&self) -> (Vec<CmdId>, Option<CmdId>, bool, bool) {
+        (
+            self.heads
+                .keys()
+                .chain(self.pbase.iter().map(|(id, _)| id))
+                .copied()
+                .collect::<alloc::collections::BTreeSet<_>>()
+                .into_iter()
+                .collect(),
+            self.phead,
+            self.perspective.is_some(),
+            self.original_heads_offset.is_some(),
+        )
+    }
+
+    /// Ids of the tips the in-flight perspective covers.
+    pub fn verif_base(&self) -> Vec<CmdId> {
+        self.pbase.iter().map(|(id, _)| *id).collect()
+    }
+}
+
 impl<SP: StorageProvider, PS: PolicyStore> Transaction<SP, PS> {
     /// Returns the transaction's graph id.
     pub fn graph_id(&self) -> GraphId {
